@@ -142,6 +142,17 @@ def range_catalogue(tier, rnd):
             cat.append(('elem', t, 'trompeloeil::%s(%s)' % (k, ', '.join(e[1] for e in l))))
             if tier == 'thorough' or len(l) <= 2 or rnd.random() < 0.5:
                 cat.append(('cont', t, 'trompeloeil::%s(std::vector<int>{%s})' % (k, ', '.join(e[1] for e in l))))
+            # the expected values in a NAMED container that is used to build two matchers (the list must survive the first):
+            # non-const lvalue, const lvalue, std::list lvalue, C array
+            vals = ', '.join(e[1] for e in l)
+            if tier == 'thorough' or len(l) <= 1 or rnd.random() < 0.4:
+                cat.append(('cont-lvalue', t, 'std::vector<int> xs{%s}; @@ trompeloeil::%s(xs)' % (vals, k)))
+            if tier == 'thorough' or rnd.random() < 0.15:
+                cat.append(('cont-clvalue', t, 'std::vector<int> const xs{%s}; @@ trompeloeil::%s(xs)' % (vals, k)))
+            if tier == 'thorough' or rnd.random() < 0.15:
+                cat.append(('cont-list', t, 'std::list<int> xs{%s}; @@ trompeloeil::%s(xs)' % (vals, k)))
+            if l and (tier == 'thorough' or rnd.random() < 0.15):
+                cat.append(('cont-carray', t, 'int xs[] = {%s}; @@ trompeloeil::%s(xs)' % (vals, k)))
         for l in mlists:
             t = T(k, 0, [e[0] for e in l])
             cat.append(('elem', t, 'trompeloeil::%s(%s)' % (k, ', '.join(e[1] for e in l))))
@@ -254,7 +265,10 @@ def scalar_block(i, kind, cpp):
     raise ValueError(kind)
 
 def range_block(i, cpp):
-    return ('{ auto mt = %s; MM m; auto e = NAMED_ALLOW_CALL(m, fv(%s)); for (auto const& r : all_ranges()) { '
+    pre = ''
+    if '@@' in cpp:
+        pre, cpp = [x.strip() for x in cpp.split('@@')]
+    return ('{ ' + pre + ' auto mt = %s; MM m; auto e = NAMED_ALLOW_CALL(m, fv(%s)); for (auto const& r : all_ranges()) { '
             'logres(%d, rjson(r, "vector-call").c_str(), probe([&]{ m.fv(r); })); '
             'std::list<int> l(r.begin(), r.end()); logres(%d, rjson(r, "list").c_str(), int(trompeloeil::param_matches(mt, std::ref(l)))); '
             'std::deque<int> d(r.begin(), r.end()); logres(%d, rjson(r, "deque").c_str(), int(trompeloeil::param_matches(mt, std::ref(d)))); '
